@@ -12,6 +12,8 @@ pub mod iter;
 pub mod read_only_db;
 pub mod snapshot;
 pub mod transaction;
+#[cfg(ckb_verif)]
+pub mod verif;
 pub mod write_batch;
 
 #[cfg(test)]
